@@ -115,11 +115,18 @@ fn profile(case: &Case) -> Profile {
     let mut max_heap = heap0;
     let mut steps = 0;
     let mut cut = false;
+    let _ = xs.verif_watch_take();
     let r = xs.compile(&case.program);
+    // what the build itself did (meta blocks and immediate words run inside compile())
+    let wb = xs.verif_watch_take();
     let meter_build = xs.verif_insn_meter();
     let heap_after_build = xs.verif_heap_len();
-    max_heap = max_heap.max(heap_after_build);
-    max_stack = max_stack.max(xs.verif_data_len());
+    max_heap = max_heap.max(heap_after_build).max(wb.max_heap);
+    max_stack = max_stack.max(xs.verif_data_len()).max(wb.max_stack);
+    if wb.max_stack > stack0 {
+        // anything above the initial length was reached by a push
+        push_peak = push_peak.max(wb.max_stack);
+    }
     let build_failed = r.is_err();
     let mut result = r;
     if result.is_ok() {
@@ -192,6 +199,43 @@ struct Bounds {
     h: Option<usize>,
     stack_at_set: usize,
     heap_at_set: usize,
+    /// instructions that really executed since the limit was set (hook H4, independent of the meter)
+    executed: u64,
+}
+
+/// Hook H4: what fetch_and_run really did since the last look, wherever it ran (run, next, eval and
+/// the build-time runs of meta blocks and immediate words), sampled at every instruction.
+fn check_watch(xs: &mut Xstate, b: &mut Bounds, when: &str) -> Outcome {
+    let w = xs.verif_watch_take();
+    b.executed += w.insns;
+    if let Some(n) = b.n {
+        if b.executed > n as u64 {
+            return Err(Violation::new(
+                "C14.hard",
+                "insn-executed",
+                format!("{}: {} instructions executed after an instruction limit of {} was set", when, b.executed, n),
+            ));
+        }
+    }
+    if let Some(s) = b.s {
+        if w.max_stack > s.max(b.stack_at_set) {
+            return Err(Violation::new(
+                "C14.hard",
+                "stack-peak",
+                format!("{}: the data stack held {} items at some instruction, limit {} (held {} when the limit was set)", when, w.max_stack, s, b.stack_at_set),
+            ));
+        }
+    }
+    if let Some(h) = b.h {
+        if w.max_heap > h.max(b.heap_at_set) {
+            return Err(Violation::new(
+                "C14.hard",
+                "heap-peak",
+                format!("{}: the heap held {} cells at some instruction, limit {} (held {} when the limit was set)", when, w.max_heap, h, b.heap_at_set),
+            ));
+        }
+    }
+    Ok(())
 }
 
 fn check_invariants(xs: &Xstate, b: &Bounds, when: &str) -> Outcome {
@@ -259,10 +303,12 @@ fn experiment(case: &Case, p: &Profile, t: &Trip, st: &mut Stats) -> Outcome {
     // an instruction limit is its own watchdog; keep it below the harness step cap
     let t = &Trip { kind: t.kind, value: if t.kind == Kind::Insn { t.value.min(2 * WATCHDOG) } else { t.value }, at_step: t.at_step };
     let mut xs = prepare(case);
-    let mut b = Bounds { n: None, s: None, h: None, stack_at_set: 0, heap_at_set: 0 };
+    let mut b = Bounds { n: None, s: None, h: None, stack_at_set: 0, heap_at_set: 0, executed: 0 };
     let arm = |xs: &mut Xstate, b: &mut Bounds| {
         b.stack_at_set = xs.verif_data_len();
         b.heap_at_set = xs.verif_heap_len();
+        let _ = xs.verif_watch_take();
+        b.executed = 0;
         match t.kind {
             Kind::Insn => {
                 xs.set_insn_limit(Some(t.value)).unwrap();
@@ -295,6 +341,9 @@ fn experiment(case: &Case, p: &Profile, t: &Trip, st: &mut Stats) -> Outcome {
             Err(e) => Err(e),
             Ok(()) => {
                 check_invariants(&xs, &b, "after the build")?;
+                if !mid {
+                    check_watch(&mut xs, &mut b, "during the build")?;
+                }
                 let mut res = Ok(());
                 let mut steps = 0usize;
                 let mut armed = !mid;
@@ -318,9 +367,15 @@ fn experiment(case: &Case, p: &Profile, t: &Trip, st: &mut Stats) -> Outcome {
                                 steps_after_set += 1;
                             }
                             check_invariants(&xs, &b, "after a step")?;
+                            if armed {
+                                check_watch(&mut xs, &mut b, "during a step")?;
+                            }
                         }
                         Err(e) => {
                             check_invariants(&xs, &b, "after a failed step")?;
+                            if armed {
+                                check_watch(&mut xs, &mut b, "during a failed step")?;
+                            }
                             res = Err(e);
                             break;
                         }
@@ -332,6 +387,7 @@ fn experiment(case: &Case, p: &Profile, t: &Trip, st: &mut Stats) -> Outcome {
         },
     };
     check_invariants(&xs, &b, "after the call")?;
+    check_watch(&mut xs, &mut b, "during the call")?;
     if let (Some(n), Style::CompileStep) = (b.n, case.style) {
         if steps_after_set > n {
             return Err(Violation::new("C14.hard", "insn-steps", format!("{} instructions executed after an instruction limit of {} was set", steps_after_set, n)));
@@ -357,14 +413,13 @@ fn experiment(case: &Case, p: &Profile, t: &Trip, st: &mut Stats) -> Outcome {
     if !p.cut && !mid {
         // `need`: the smallest limit value under which the unlimited twin's run fits.
         // must_fail below it; must_pass from need + slack on. The stack profile is taken after each
-        // instruction, so a word that pushes temporaries is covered by a slack of 2; pushes made
-        // inside compile() by meta blocks are invisible to the twin, so with build-time
-        // instructions only a huge stack limit is required to change nothing.
+        // instruction (inside compile() too, through hook H4), so a word that pushes temporaries
+        // is covered by a slack of 2.
         // `fail_below`: every limit value under it is certainly exceeded. `pass_from`: every value
         // from it on is certainly not exceeded. Between the two nothing is asserted.
         let (fail_below, pass_from) = match t.kind {
             Kind::Insn => (p.meter, p.meter),
-            Kind::Stack => (p.push_peak, if p.meter_build == 0 { p.max_stack + 2 } else { 1 << 30 }),
+            Kind::Stack => (p.push_peak, p.max_stack + 2),
             Kind::Heap => {
                 let need = if p.max_heap > p.heap0 { p.max_heap } else { 0 };
                 (need, need)
@@ -443,6 +498,7 @@ impl Engine for Limits {
 
     fn generate(rng: &mut Rng, tier: Tier) -> Case {
         let mut f = Features::swarm(rng);
+        f.immediates = rng.chance(1, 4);
         f.errors = *rng.pick(&[0, 0, 0, 10]);
         let input_len = *rng.pick(&[0usize, 64]);
         let input = random_bytes(rng, input_len);
